@@ -12,7 +12,8 @@ CHECKS = {
  "C01": dict(
    text="Bounded exhaustive exploration of the product of the real evaluator and an RFC 9535 reference model: for every document of the universes, "
         "breadth-first search over the evaluator's observable states (tag + nodelist with paths), one real js_path_process run per (state, segment) edge, "
-        "multiset equality of selected locations with the model and address identity of every returned reference. Exhaustive within the stated bounds, nothing sampled.",
+        "multiset equality of selected locations with the model and address identity of every returned reference; plus the construct x context matrix (every selector of the per-document alphabet "
+        "in 34 syntactic positions), documents deeper than a parser accepts (assembled in code) and a size ladder around powers of two, all against the model. Exhaustive within the stated bounds, nothing sampled.",
    design="4.C01 / 2", note=BFS_NOTE, technique="explicit-state BFS of the evaluator's nodelist transition system against a reference model (product exploration, every edge executed on the implementation)"),
  "C02": dict(
    text="Same product exploration as C01 with the order relation on every edge: child segments must reproduce the model sequence exactly (input-node-major, selector order, "
@@ -50,7 +51,8 @@ CHECKS = {
         "encoding of the RFC grammar (all comparable pairs x operators, functions with every argument kind, Boolean structure, segment sequences) with a blank of each kind at every "
         "boundary, one-position families (class-boundary characters, every escape, upper/lower/mixed hex, all surrogate pairings, integer and number shapes, every sequence of up to three (four) escape-level tokens inside a string in six positions, every slice of a cube and every small index inside function "
         "arguments) and every single-token edit; "
-        "each string is classified by an independent RFC recogniser; every string it calls valid must be accepted by the real parser.",
+        "each string is classified by an independent RFC recogniser; every string it calls valid must be accepted by the real parser; nesting ladders and the generated sentence set are additionally "
+        "parsed as the FIRST parse of a fresh process each (nothing an earlier parse left behind can help).",
    design="4.C06/C07", note="trusted base: the hand-written recogniser mc/src/model/parse.rs (ABNF + I-JSON range + function well-typedness), cross-checked at start-up against the sentence generator and the RFC's examples; unknown function names and out-of-range integer literals are don't-care",
    technique="exhaustive enumeration of bounded string spaces (all token strings <= n, all character strings <= m, all grammar sentences up to a size, all single-token edits) classified by a reference recogniser"),
  "C07": dict(
@@ -88,7 +90,7 @@ CHECKS = {
         "universe, the panel) and every node, reference(normalized path) must return that very node (by address) and reference_mut must give a handle whose write changes exactly "
         "that node (whole-document comparison against the model's set) for each of five written values; every neighbouring location that does not exist must yield None and leave the "
         "document untouched. Update histories: breadth-first search over the documents reachable by sequences of writes through the paths of one initial query, de-duplicated on the "
-        "document, each write executed on the implementation and on the reference model (including paths that dangle after an earlier write). Feed-back: the (node, path) pairs reported by wildcard and filter routes over array elements and object members are compared "
+        "document, each write executed on the implementation and on the reference model (including paths that dangle after an earlier write). One variable, successive documents: a look-up that misses, the variable then receives the document after a location-creating write, every node must resolve. Feed-back: the (node, path) pairs reported by wildcard and filter routes over array elements and object members are compared "
         "position by position with the model - a correct path must carry exactly its node.",
    design="4.C09", note="trusted base: normpath and the 15-line model_set; bounds: document universes, written values, history depth",
    technique="exhaustive node sweep plus explicit-state BFS over update histories, every transition executed on the implementation and a reference model"),
